@@ -387,6 +387,55 @@ pub fn generate(ctx: &mut Ctx) {
         let e = expectation(BigInt::one(), vec![(iv(&[-a, 1]), 1), (iv(&[-b, 1]), 1), (iv(&[1, 1, 1]), 1)]);
         do_expected(ctx, &e, false);
     }
+    // 1c. products whose factors have coefficients close to the factor-coefficient bound: cyclotomic
+    //     polynomials at shifted and reflected arguments (Phi_m(x), Phi_m(1 - x), Phi_m(x + 1), Phi_m(-x)),
+    //     total degree <= 18; the oracle decides alone (the proved model value where irreducibility is out of
+    //     its reach). Two fixed witnesses of a too small bound first.
+    do_factor(ctx, &iv(&[1, -1, 5, 0, 0, 0, 1, 2, 2, 1, 0, 0, 0, 3, -3, 1]), None);
+    do_factor(ctx, &iv(&[-1, -1, -5, 0, 0, 0, -1, 2, -2, 1, 0, 0, 0, 3, 3, 1]), None);
+    {
+        let compose = |f: &[BigInt], a: i64, b: i64| -> P {
+            // f(a x + b) by Horner
+            let lin = iv(&[b, a]);
+            let mut acc: P = vec![];
+            for c in f.iter().rev() {
+                acc = pmul(&acc, &lin);
+                if acc.is_empty() {
+                    acc = vec![c.clone()];
+                } else {
+                    acc[0] += c;
+                }
+            }
+            acc
+        };
+        let ms = [2usize, 3, 4, 5, 6, 7, 8, 9, 10, 12, 14, 15, 18];
+        for _ in 0..ctx.pick(40, 600) {
+            let mut f: P = vec![BigInt::one()];
+            let mut used: Vec<(usize, u8)> = vec![];
+            for _ in 0..2 + ctx.rng.below(4) {
+                let m = ms[ctx.rng.below(ms.len() as u64) as usize];
+                let kind = ctx.rng.below(4) as u8;
+                if used.contains(&(m, kind)) {
+                    continue;
+                }
+                let phi = iv(&crate::c20::cyclotomic(m));
+                let g = match kind {
+                    0 => phi,
+                    1 => compose(&phi, -1, 1),
+                    2 => compose(&phi, 1, 1),
+                    _ => compose(&phi, -1, 0),
+                };
+                if f.len() - 1 + g.len() - 1 > 18 {
+                    continue;
+                }
+                used.push((m, kind));
+                f = pmul(&f, &g);
+            }
+            if f.len() >= 3 {
+                do_factor(ctx, &f, None);
+            }
+        }
+    }
     // 2. exhaustive: every polynomial with few small coefficients (no expectation: the oracle decides alone)
     let mut small = if ctx.thorough { small_polys(5, 3) } else { small_polys(5, 2) };
     small.extend(small_polys(if ctx.thorough { 8 } else { 6 }, 1).into_iter().filter(|v| v.len() >= 6));
